@@ -103,7 +103,11 @@ fn real_main(args: Vec<String>) -> i32 {
                 }
                 "C12" => {
                     let seed = std::env::var("VERIF_SEED").ok().and_then(|s| s.trim().parse::<i64>().ok()).unwrap_or(0) as u64;
-                    worker::child_loop(&c12::Pairs::new(tier, seed), from, to)
+                    if family == "cold" {
+                        worker::child_loop(&c12::Cold { rounds: if tier == Tier::Thorough { 400 } else { 40 } }, from, to)
+                    } else {
+                        worker::child_loop(&c12::Pairs::new(tier, seed), from, to)
+                    }
                 }
                 _ => {
                     let _ = family;
@@ -149,6 +153,7 @@ fn real_main(args: Vec<String>) -> i32 {
                         if !runs.is_empty() {
                             ev.set("sanitizer_runs", serde_json::Value::Array(runs));
                         }
+                        ev.set("anchor_line_coverage", sanitize::anchor_coverage(&ctx, &prop));
                     }
                     ctx.finish(ev)
                 }
